@@ -499,7 +499,7 @@ def rule_error_arity(ctx, repo, graph):
         for n in walk_no_nested(bi.node):
             if isinstance(n, ast.Assign) and len(n.targets) == 1 and isinstance(n.targets[0], ast.Attribute) and norm(n.targets[0].value) == bi.params[0]:
                 stores[n.targets[0].attr] = norm(n.value)
-        for nm in STATE_NAMES:
+        for nm in ('stack', 'altstack', 'nOpCount'):
             if nm not in bi.params:
                 continue
             if stores.get(nm) == nm:
